@@ -31,6 +31,10 @@ CLAIMED = {
    text='Coq theorems: a chain of left-(right-)orthonormal cores has orthonormal columns (rows) for every order/rank vector (composition of isometries); u*diag(s)*v reproduces the decomposed cores under the SVD value conjunct; X = U S^-1 V (what pinv builds) satisfies the four Penrose equations, i.e. X^H = A^+. TT.svd and TT.pinv (all split indices, flags, thresholds, max ranks) are modelled on top of the C03 sweeps and tied to /repo by oracle-tape differential execution; side check against numpy.linalg.svd/pinv incl. rank-deficient unfoldings and input-unchanged.',
    note='Trusted: Coq kernel, harness, SVD oracle hypotheses, uniqueness of singular values and of the Penrose solution (classical, not re-proved); zero tensors with threshold>0 excluded (finding F14).',
    technique='Coq proof (isometry composition, Penrose algebra) + oracle-tape correspondence', design='6 C05'),
+ 'C04': dict(
+   text='Coq theorems (every order/dims/ranks): no inner rank exceeds max_rank after construction from a full array or a truncating sweep (int or per-bond list); threshold 0 / unbounded rank is exact; ERROR IDENTITY: for genuine SVD answers and prefix truncation the squared Frobenius error equals the sum of the squares of all discarded singular values. TT(ndarray,..), truncated_svd and the truncating sweeps are tied to /repo by oracle-tape differential execution; side check of both inequalities of the property against dense unfoldings (flat and decaying spectra).',
+   note='PARTIAL: the quasi-optimality bound w.r.t. the ORIGINAL unfoldings (needs Eckart-Young + interlacing) and the threshold bound (needs an ordered field) are derived from the proved identity only on paper and are tested numerically. Known finding F14 (zero tensor with threshold > 0 raises) is reported as KNOWN-FINDING. Trusted: Coq kernel, harness, SVD oracle hypotheses.',
+   technique='Coq proof (Pythagoras over orthonormal singular directions, induction over the TT-SVD) + oracle-tape correspondence', design='6 C04'),
 }
 NOT_YET = {}
 ALL = ['C%02d' % i for i in range(1, 21)]
